@@ -41,6 +41,8 @@ man = {
     "engines": [
         {"name": "pure", "path": "n2v/src/pure/", "serves_properties": [c["property_id"] for c in checks if "pure" in c["engine"]],
          "kind_free_text": "E3: function-level monitors; n2's real functions (canonicaliser, loader, depfile reader, render helpers) called in-process through cfg-gated facades and compared with independent references / generator ground truth; exhaustive short-input enumeration + random long inputs"},
+        {"name": "real", "path": "n2v/src/real.rs", "serves_properties": [c["property_id"] for c in checks if "real" in c["engine"]],
+         "kind_free_text": "E2: black box; the real n2 binary built from /repo runs real /bin/sh commands (n2v-agent) in generated project directories; oracles over the agents' event log, n2's stdout/exit status, the files and the log left behind, and the reference model"},
         {"name": "sim", "path": "n2v/src/sim.rs", "serves_properties": [c["property_id"] for c in checks if "sim" in c["engine"]],
          "kind_free_text": "E1: in-process scripted executor; n2's real scheduler, loader, db and hashing run, the process boundary is replaced by a harness that chooses completion order/outcome and applies simulated command effects to a real tmpfs tree; online trace monitors + reference model"},
     ],
